@@ -1,7 +1,7 @@
 SPEC = {
     "id": "C07",
     "level": "proof",
-    "theorem_modules": ["GluonModel.Theorems.C07"],
+    "theorem_modules": ["GluonModel.Theorems.C07", "GluonModel.Theorems.C07SetOS"],
     "correspondences": [
         # every modelled (operation, instance): the recorded storage-step trace of the real operation must equal the
         # model's step list; the judge evaluates the theorems' structural hypotheses on the REAL trace
@@ -17,8 +17,19 @@ SPEC = {
         # directory; the traces of the runs with an injected error go to the Lean judge `judge-c07-fail` (error handlers).
         # Instances 0..2 are the scripted variants of every operation (quick and thorough); 3,4 only vary the literal size.
         {"name": "c07crash", "quick_args": ["-insts", "0,1,2"], "thorough_args": ["-insts", "0,1,2,3,4"], "timeout": 3000},
+        # OS-LEVEL write failures BELOW the store.Store interface, under the real on-disk store: a store-builder wrapper only
+        # arranges for the kernel to fail the writes of the next cache file(s) (the file's path pre-created as a symlink to
+        # /dev/full = a full disk; RLIMIT_FSIZE at the last byte / in the middle / inside the header = a disk that fills up)
+        # and calls the real onDiskStore.Set; APPEND, connector MessageCreated / MessagesCreated / MessageUpdated with cache
+        # files of tiny, 4 KiB, 64 KiB -1/0/+1, one store block -1/0/+1, 1 MiB; then: every message listed in every mailbox
+        # is fetched with its exact bytes, live and after a restart with a connector that serves nothing, and every real Set
+        # that returned nil left a file the real Get reads back exactly (judge-c07os = the named hypothesis SetFaithful of
+        # Theorems/C07SetOS.lean; `cause=os-write-error-swallowed`)
+        {"name": "c07os", "quick_args": ["-tier", "quick"], "thorough_args": ["-tier", "thorough"], "timeout": 1200},
     ],
-    "rule": "evaluations = trace comparisons + fault runs (one child process death / injected error each, plus the restart); "
+    "rule": "evaluations = trace comparisons + fault runs (one child process death / injected error each, plus the restart) + OS-level "
+            "write-failure cases of c07os (one operation with the kernel failing the cache file's writes, live view, restart view; "
+            "non-trivial = at least one real Set call failed; input_distribution oracle.c07os op.* size.* mode.*); "
             "non-trivial = the run's restart view was the after-state or the before-state of an operation that changes the account "
             "(fault_enumeration: every boundary of every modelled operation instance is enumerated, see input_distribution oracle.c07crash steps.* / runs.*)",
     "trusted_base": [
@@ -31,9 +42,17 @@ SPEC = {
         "statement table (which db.Transaction methods change the acknowledged state): every method not in db.ReadOnly and not a \\Recent-only update counts as visible (conservative)",
         "interposers harness/interpose.go + generated interpose_gen.go (tools/c07gen) around the public db.Client/db.Transaction/store.Store interfaces; the wrappers embed the interfaces and the oracle and the trace dialect "
         "compare the method sets at run time (a changed db interface is reported as `db interface changed: run tools/c07gen`, it does not break the harness build); verifhooks.NewSQLiteDB; Server.VerifBarrier/VerifStates",
+        "store-builder wrapper harness/o_c07os.go (gluon.WithStoreBuilder): passes every call to the real store.OnDiskStoreBuilder store; before a "
+        "faulted Set it replaces the cache file's path by a symlink to /dev/full or lowers RLIMIT_FSIZE (SIGXFSZ ignored) for the duration of the real "
+        "Set; classifies what the call left by the real Get (never through the /dev/full symlink); Sets are serialised while it is installed",
         "facts translator harness/facts_crash.go (go/ast): interface method sets, storage calls of the anchored functions in source order, the collection the cache clean-up loop of applyMessagesCreated ranges over and the if-conditions under which it grows",
     ],
     "assumptions": [
+        "NAMED hypothesis SetFaithful (Model/CrashSetOS.lean): a store.Set that returns nil has left the complete cache file with the bytes it was given - "
+        "every theorem of Theorems/C07.lean reads a recorded store.Set that way; Theorems/C07SetOS.lean states it (real_is_model_partial, "
+        "listed_is_cached_real_partial) and shows it is needed (listed_is_cached_needs_SetFaithful); it is CHECKED on the real onDiskStore by the oracle c07os "
+        "for write failures the kernel reports at write(2) (ENOSPC from /dev/full, EFBIG at RLIMIT_FSIZE) - errors reported only at close(2) / fsync (NFS, "
+        "delayed allocation) are not produced: onDiskStore.Set ignores the result of file.Close() and never fsyncs (see the next assumption)",
         "only PROCESS death and failing storage calls are covered: power loss / missing fsync (cache files and the WAL are not fsynced by gluon), torn sector writes and SQLite's own crash recovery are outside the model and outside the oracle",
         "a transaction commits wholly or not at all, also when the process is killed during COMMIT (SQLite); the oracle kills before and after the commit call, not inside it",
         "death inside store.Set is modelled at two points (header+nonce only; some blocks written) and exercised on the real code by killing the process from inside the reader passed to the real Set",
@@ -54,5 +73,8 @@ SPEC = {
                    "every row stays fetchable under the store discipline (listed_is_fetchable) - and, for operations that re-download nothing, keeps its COMPLETE cache file, also through the operation's error handler (listed_is_cached / fail_listed_is_cached with the named hypothesis handlerOk; "
                    "false without it: fail_listed_is_cached_needs_handlerOk, a clean-up that deletes the file of a message the server already had) - and start-up removes all left-overs from any state (leftovers_removed); the structural facts are decided for every modelled operation instance "
                    "(operations on pre-existing objects included: connector updates naming known messages, duplicates in one batch, COPY/MOVE onto a mailbox holding the message, RENAME INBOX, RENAME/DELETE of non-empty hierarchies) and re-evaluated by the judges on the traces recorded from the real operation (judge-c07-trace; judge-c07-fail on the faulted runs). "
+                   "Below the store interface (Theorems/C07SetOS.lean): with the named hypothesis SetFaithful the execution with the real outcomes of the Set calls is the model's, "
+                   "so listed_is_cached holds whatever the operating system did to the writes (listed_is_cached_real_partial); without it an APPEND on a full disk is acknowledged, "
+                   "listed after the restart and has no bytes (listed_is_cached_needs_SetFaithful) - the oracle c07os evaluates the hypothesis on the real store with kernel-level write failures. "
                    "Fault enumeration (not a proof): child processes are killed / get an injected error at every recorded step of every operation, the server is restarted on the same directories and compared over IMAP, the store directory is audited against the message rows.",
 }
